@@ -31,7 +31,11 @@ func (k msgServer) IncreaseLiquidity(ctx context.Context, msg *types.MsgIncrease
 		return nil, errorsmod.Wrapf(sdkerrors.ErrKeyNotFound, "key %d doesn't exist", msg.Id)
 	}
 
-	if msg.Sender != position.Address {
+	sender, err := sdk.AccAddressFromBech32(msg.Sender)
+	if err != nil {
+		return nil, errorsmod.Wrap(err, "invalid sender address")
+	}
+	if sender.String() != position.Address {
 		return nil, errorsmod.Wrap(sdkerrors.ErrUnauthorized, "incorrect owner")
 	}
 
@@ -44,10 +48,6 @@ func (k msgServer) IncreaseLiquidity(ctx context.Context, msg *types.MsgIncrease
 	}
 
 	// Remove full position liquidity
-	sender, err := sdk.AccAddressFromBech32(msg.Sender)
-	if err != nil {
-		return nil, errorsmod.Wrap(err, "invalid sender address")
-	}
 	liquidity, err := math.LegacyNewDecFromStr(position.Liquidity)
 	if err != nil {
 		return nil, errorsmod.Wrap(err, "invalid liquidity")
@@ -89,7 +89,7 @@ func (k msgServer) IncreaseLiquidity(ctx context.Context, msg *types.MsgIncrease
 	if err := sdk.UnwrapSDKContext(ctx).EventManager().EmitTypedEvent(&types.EventIncreaseLiquidity{
 		OldPositionId: msg.Id,
 		NewPositionId: res.Id,
-		Address:       msg.Sender,
+		Address:       sender.String(),
 		AmountBase:    res.AmountBase.String(),
 		AmountQuote:   res.AmountQuote.String(),
 	}); err != nil {
